@@ -103,7 +103,7 @@ func c01TwoConns(x *X) {
 }
 
 func init() {
-	register(&Scenario{Prop: "C01", Name: "c01/2callers-allmodes", Quick: []Bound{{1, 0}, {2, 0}}, Thorough: []Bound{{2, 0}, {3, 0}}, Body: c01Body(2, basicModes)})
+	register(&Scenario{Prop: "C01", Name: "c01/2callers-allmodes", Quick: []Bound{{1, 0}, {2, 0}}, Thorough: []Bound{{2, 0}, {3, 0}}, Body: c01Body(2, basicModes), BudgetQ: 35})
 	register(&Scenario{Prop: "C01", Name: "c01/3callers", Quick: []Bound{{1, 0}}, Thorough: []Bound{{2, 0}}, Body: c01Body(3, basicModes[:5])})
 	register(&Scenario{Prop: "C01", Name: "c01/two-conns", Quick: []Bound{{1, 0}, {2, 0}}, Thorough: []Bound{{3, 0}}, Body: c01TwoConns})
 }
